@@ -11,6 +11,8 @@ THEOREMS = {
         "Dawgs.C01.Props.tr3_some", "Dawgs.C01.Props.tr_sound_S2c", "Dawgs.C01.Props.c01_partial_S3", "Dawgs.C01.Props.ofCyChain_sound",
         "Dawgs.C01.Props.tr4_some", "Dawgs.C01.Props.tr_sound_S1c", "Dawgs.C01.Props.c01_partial_S4", "Dawgs.C01.Props.ofCyCount1_sound",
         "Dawgs.C01.Props.tr5_some", "Dawgs.C01.Props.tr_sound_S2n", "Dawgs.C01.Props.c01_partial_S5", "Dawgs.C01.Props.ofCyCount2_sound",
+        "Dawgs.C01.Props.ofCyLimit2_sound", "Dawgs.C01.Props.tr6_some", "Dawgs.C01.Props.limit_refused_iff", "Dawgs.C01.Props.tr_sound_S2L",
+        "Dawgs.C01.Props.tr_noerr_S2L", "Dawgs.C01.Props.tr_sound_S2L_forced",
     ],
 }
 
@@ -187,6 +189,12 @@ FRAGMENT_PROVED = ("stage S1 (all graphs with unique node ids / injective kind m
                    "the rows agree as a BAG (List.Perm), not as a list. "
                    "stage S2n (same graphs, join orders and pruning as S2b): MATCH (a[:K...])-[r[:T|...]]->(b[:K...]) [WHERE single-variable conjuncts] RETURN count(x) [AS c], x one "
                    "of a, r, b — one row, the number of matches. "
+                   "stage S2L (same graphs, join orders and pruning as S2b; the LIMIT written on the statement only, or — limit pushdown — on the statement AND on the hop frame): "
+                   "an S2b query followed by LIMIT k (integer literal >= 0), no ORDER BY, no SKIP. openCypher does not fix WHICH k rows such a query returns, and the reference "
+                   "evaluator refuses it (`nondeterministic-limit-inside-ties`) exactly when 0 < k < number of rows of the base query (limit_refused_iff); the theorem is therefore "
+                   "stated against the BASE query (the query without LIMIT): the statement's rows are a SUB-BAG of the base query's rows of exactly min(k, number of base rows) rows, "
+                   "and they are the first k rows of a list that depends on the join order only; when the reference semantics does define the LIMIT query (k = 0 or k >= number of "
+                   "base rows) the rows agree with it as a bag (tr_sound_S2L_forced). "
                    "stage S2c (same graphs; both join orders of the first hop): chains of TWO or THREE directed fixed hops "
                    "MATCH (n0[:K...])-[e0[:T|...]]->(n1[:K...])-[e1[:T|...]]->(n2[:K...]) [-[e2[:T|...]]->(n3[:K...])] RETURN items, no WHERE / ORDER BY / SKIP / LIMIT / DISTINCT, "
                    "all variable names distinct, every variable read by some item, items ::= x | id(x) | x.k [AS alias]; bag agreement. openCypher's relationship uniqueness within the "
@@ -202,9 +210,9 @@ SPEC = {
     "fallback_level": "other",
     "lean_modules": ["Dawgs.Props.C01"],
     "theorems_by_module": THEOREMS,
-    "gate_modules": ["Dawgs.Model.Graph", "Dawgs.Model.Cypher", "Dawgs.Model.CyEval", "Dawgs.Model.SqlVal", "Dawgs.Model.SqlEval", "Dawgs.Model.C01", "Dawgs.Model.C01S2", "Dawgs.Model.C01Chain", "Dawgs.Model.C01Count", "Dawgs.Model.C02",
+    "gate_modules": ["Dawgs.Model.Graph", "Dawgs.Model.Cypher", "Dawgs.Model.CyEval", "Dawgs.Model.SqlVal", "Dawgs.Model.SqlEval", "Dawgs.Model.C01", "Dawgs.Model.C01S2", "Dawgs.Model.C01Chain", "Dawgs.Model.C01Count", "Dawgs.Model.C01Limit", "Dawgs.Model.C02",
                      "Dawgs.Proofs.C01", "Dawgs.Proofs.C01Sql", "Dawgs.Proofs.C01Pred", "Dawgs.Proofs.C01Query", "Dawgs.Proofs.C01Cy", "Dawgs.Proofs.C01Sound",
-                     "Dawgs.Proofs.C01Frag", "Dawgs.Proofs.C01At", "Dawgs.Proofs.C01S2Sql", "Dawgs.Proofs.C01S2Cy", "Dawgs.Proofs.C01S2Sound", "Dawgs.Proofs.C01ChainSql", "Dawgs.Proofs.C01ChainCy", "Dawgs.Proofs.C01ChainSound", "Dawgs.Proofs.C02", "Dawgs.Proofs.C01Count", "Dawgs.Proofs.C01CountHop", "Dawgs.Props.C01"],
+                     "Dawgs.Proofs.C01Frag", "Dawgs.Proofs.C01At", "Dawgs.Proofs.C01S2Sql", "Dawgs.Proofs.C01S2Cy", "Dawgs.Proofs.C01S2Sound", "Dawgs.Proofs.C01ChainSql", "Dawgs.Proofs.C01ChainCy", "Dawgs.Proofs.C01ChainSound", "Dawgs.Proofs.C02", "Dawgs.Proofs.C01Count", "Dawgs.Proofs.C01CountHop", "Dawgs.Proofs.C01Limit", "Dawgs.Props.C01"],
     "suites": [{"name": "c01tie", "model_suite": "c01tie", "model_input": model_input, "impl_view": impl_view, "model_view": model_view,
                 "judge": tie_judge, "keep_prefix": 1, "thorough_seeds": 1},
                {"name": "c01", "model_suite": "c01sem", "model_input": model_input, "impl_view": impl_view, "model_view": model_view,
@@ -214,12 +222,12 @@ SPEC = {
     "extra_coverage": extra_coverage,
     "panic_is_violation": False,
     "rule": "tie 1 (suite c01tie): structured random queries of the PROVED fragment S1 (kinds x predicates x items x order/skip/limit) and S2b (kinds of a / r / b x 0-4 WHERE conjuncts, "
-            "each an S1 predicate of depth <= 2 over one of a, r, b x 1-4 items over any of a, r, b) S2c (chains of 2-3 hops x kinds x items over all variables) S1c (count(n) over a node pattern x kinds x optional predicate x alias) and S2n (count(x) over a hop x kinds x 0-3 conjuncts x alias; splitmix64(VERIF_SEED)) are translated by the REAL "
+            "each an S1 predicate of depth <= 2 over one of a, r, b x 1-4 items over any of a, r, b) S2c (chains of 2-3 hops x kinds x items over all variables) S1c (count(n) over a node pattern x kinds x optional predicate x alias), S2n (count(x) over a hop x kinds x 0-3 conjuncts x alias) and S2L (an S2b query + LIMIT k, k in {0,1,2,3,5,50}, no ORDER BY: the real statement must be the model statement WITH the LIMIT pushed into the hop frame; prediction checked against the base query: sub-bag of exactly min(k, n) rows; splitmix64(VERIF_SEED)) are translated by the REAL "
             "translator; the reflection S-expression of Result.Statement must be EQUAL to the model translator's statement (and carry no parameters) — for a hop the model has TWO "
             "statements, one per join order (`S2.Query.trWith km false / true`): which one the translator picks is a selectivity heuristic over its Go syntax tree that scores only "
             "pointer-typed nodes, which the reflection rendering does not determine, so the direction is NOT modelled; the theorems hold for both and the tie accepts either (the "
             "record counts how often the model's own approximation `flipOpt` names the order taken) — and on every generated graph satisfying "
-            "the stage's hypothesis (GraphOK for S1 / S1c, GraphOK2 for S2b / S2c / S2n) the two evaluators must agree. tie 2 (suite c01, SEARCH not proof): FOCUSED FAMILIES (harness/focused.go: variable-length step + >= 2 fixed hops with every subset of the suffix nodes already bound, "
+            "the stage's hypothesis (GraphOK for S1 / S1c, GraphOK2 for S2b / S2c / S2n / S2L) the two evaluators must agree (S2L: the statement's rows must be a sub-bag of min(k, n) rows of the base query's rows). tie 2 (suite c01, SEARCH not proof): FOCUSED FAMILIES (harness/focused.go: variable-length step + >= 2 fixed hops with every subset of the suffix nodes already bound, "
             "aggregate-only RETURN incl. collect / size(collect()) with LIMIT and no ORDER BY — one output row, so the LIMIT is deterministic —, aggregate traversal counts, collect membership; a NAMED PATH bound by a MATCH whose own WHERE holds a pattern predicate, over patterns the optimiser reverses, the path / "
             "nodes(p) / relationships(p) / length(p) observed directly and through WITH (path VALUES are compared as ordered node and relationship lists; a result that is the Cypher "
             "result with every path reversed is the symptom class `path-in-reverse-order`, keyed by the enabling query shape); string predicates and equalities whose literal contains "
@@ -246,13 +254,13 @@ SPEC = {
     "assumptions": ["GraphOK (theorems): node ids unique, kind map injective, no property stored as JSON null; decidable (graphOKb), evaluated on every generated graph, "
                     "graphs outside it are still evaluated and counted",
                     "GraphOK2 (stage S2b theorems): GraphOK + relationship ids unique + every relationship kind present in the kind map + no relationship property stored as JSON null; decidable (graphOK2b), evaluated on every generated graph",
-                    "proof only on stages S1, S1c, S2b, S2c and S2n; every other construct is search on small graphs (bounded evaluation, NOT proof)"],
+                    "proof only on stages S1, S1c, S2b, S2c, S2n and S2L; every other construct is search on small graphs (bounded evaluation, NOT proof)"],
 }
 
 MANIFEST = {
     "category": "translation_validation",
-    "technique": "Lean semantics for both languages (Cy.eval, Sql.eval); model translator tr5F proved sound on stages S1, S1c (count over a node pattern), S2b (one directed hop with WHERE), S2c (chains of 2-3 directed hops) and S2n (count over a hop) for all graphs, all queries and both join orders, tied to the real translator by exact "
-                 "AST equality on generated S1 / S1c / S2b / S2c / S2n queries; outside them: evaluation of the REAL emitted statement against the source query on generated small graphs (search)",
+    "technique": "Lean semantics for both languages (Cy.eval, Sql.eval); model translator tr6F proved sound on stages S1, S1c (count over a node pattern), S2b (one directed hop with WHERE), S2c (chains of 2-3 directed hops), S2n (count over a hop) and S2L (hop with LIMIT and no ORDER BY, stated against the base query) for all graphs, all queries and both join orders, tied to the real translator by exact "
+                 "AST equality on generated S1 / S1c / S2b / S2c / S2n / S2L queries; outside them: evaluation of the REAL emitted statement against the source query on generated small graphs (search)",
     "text": "PROVED (Props/C01.lean, axioms propext/Classical.choice/Quot.sound only): tr_sound_S1 — for every graph with unique node ids, injective kind map and no stored JSON null, "
             "every parsed query q and statement (st, ps) with tr km q = some (st, ps): if Sql.eval (encode km g) st ps yields a table then Cy.eval g q yields a result and both show the "
             "client the same rows in the same order; tr_no_runtime_error — that evaluation never ends in an SQL run-time / type / name error (only the model's own `unmodelled` for `->>` of "
@@ -272,11 +280,18 @@ MANIFEST = {
             "and both statement shapes (fast path on / off) the SQL row equals the Cypher row (Proofs/C01Count.lean: evalSelect_countA, fastStmt_eval, frameStmt_eval, cy_side_count — "
             "implicit grouping with no key is one group, count(n) counts the non-null bindings); c01_partial_S4 : forall flipOf flipCh fast prune, C01_bag_for (tr4F flipOf flipCh fast prune); "
             "tr4_some; ofCyCount1_sound. Stage S2n (count over a hop): tr_sound_S2n / count_hop_sound (Proofs/C01CountHop.lean: the S2b frame lemmas + evalSelect_countA over the pruned "
-            "frame; cy_count_eval — RETURN count(v) over any list of rows binding v) ; c01_partial_S5 : forall flipOf flipCh flipN fast prune, C01_bag_for (tr5F ...); tr5_some; ofCyCount2_sound. FRAGMENT PROVED = " + FRAGMENT_PROVED + ". NOT PROVED: C01_full (the statement for a total "
+            "frame; cy_count_eval — RETURN count(v) over any list of rows binding v) ; c01_partial_S5 : forall flipOf flipCh flipN fast prune, C01_bag_for (tr5F ...); tr5_some; ofCyCount2_sound. Stage S2L (hop + LIMIT k, no ORDER BY / SKIP; "
+            "tr6F = S2L where the query has that reading, else tr5F; tr6_some; ofCyLimit2_sound): C01_bag_for is NOT claimed for tr6F, because the reference semantics refuses such a query whenever the "
+            "LIMIT has to choose (limit_refused_iff: Cy.eval = error `nondeterministic-limit-inside-ties` iff 0 < k < number of base rows, else the first k = all / none of the base rows). "
+            "tr_sound_S2L — for every GraphOK2 graph, both join orders, frame pruned or complete, LIMIT pushed into the frame or not: if the statement yields a table t then the BASE query has a result r, "
+            "the client rows of t are a sub-bag of the rows of r (SubBag xs ys := exists rest, (xs ++ rest) ~ ys), t has exactly min(k, |r|) rows, and the rows of t are the first k of "
+            "hopM g base flip mapped to client rows — hopM (Proofs/C01S2Sound.lean) is the frame's scan order for the join order, a permutation of the base matches that does not depend on pruning or on the pushdown; "
+            "tr_noerr_S2L (never an SQL run-time error); tr_sound_S2L_forced (when Cy.eval of the LIMIT query itself is defined, bag agreement with it). Proofs/C01S2Sql.lean hop_frame_lim / "
+            "eval_cteStmt_lim evaluate the frame and the statement with their LIMIT literals; Proofs/C01Limit.lean cy_side2_lim, s2l_sound. FRAGMENT PROVED = " + FRAGMENT_PROVED + ". NOT PROVED: C01_full (the statement for a total "
             "translator) stays a visible Prop; the design's S1 remainder (DISTINCT, ORDER BY on properties, ordered and string-function property comparisons), the rest of S2 (undirected hops, chains with WHERE or of more than three hops, "
-            "WHERE conjuncts that read two variables, ORDER BY over a hop) and S3..S5 are SEARCHED only. "
+            "WHERE conjuncts that read two variables, ORDER BY / SKIP over a hop, LIMIT over chains or counts) and S3..S5 are SEARCHED only. "
             "FRAGMENT SEARCHED = " + FRAGMENT_SEARCHED + ". Confirmed deviations of the unchanged translator from openCypher (OPTIONAL MATCH as first clause, jsonb ordering under ORDER BY, "
             "self loops under undirected patterns, missing relationship uniqueness across pattern parts, text-form comparisons, SQL run-time cast errors, ...) are findings in "
             "known_findings.json, each with a replay in corpus/C01.",
-    "note": "No PostgreSQL server: SQL meaning is a trusted Lean transcription of the documentation. Bounded evaluation on small graphs is search, not proof; the proof covers stages S1, S1c, S2b, S2c and S2n only.",
+    "note": "No PostgreSQL server: SQL meaning is a trusted Lean transcription of the documentation. Bounded evaluation on small graphs is search, not proof; the proof covers stages S1, S1c, S2b, S2c, S2n and S2L only (S2L against the base query's rows, see text).",
 }
